@@ -96,6 +96,10 @@ class ColumnBackend(ArraySchemaBackend):
                     error_handler.collect_error(
                         validation_type(err.reason_code), err.reason_code, err
                     )
+                if return_check_obj:
+                    # the parsed (but invalid) object: custom parsers are
+                    # applied whether or not the checks pass
+                    return errs.data
             except SchemaError as err:
                 err.column_name = column_name
                 error_handler.collect_error(
